@@ -121,7 +121,7 @@ func (w *World) dumpQueries(ctx sdk.Context) (out []string) {
 				break
 			}
 			for _, u := range r.Utxrs {
-				items = append(items, EncStr(u.RequestId)+"*"+intStr(u.Amount.Amount))
+				items = append(items, EncStr(u.RequestId)+"*"+intStr(u.Amount.Amount)+"*"+nftStr(u.Nft)+"*"+fmt.Sprint(u.CreatedAt)+"*"+strings.ReplaceAll(rcptStr(u.Recipients), "*", "^"))
 			}
 			if r.Pagination == nil || len(r.Pagination.NextKey) == 0 {
 				break
